@@ -83,6 +83,8 @@ func (r *evalRenderer) atom(a Node) string {
 		return nstr(a, "n")
 	case "faultx":
 		return r.faultExpr
+	case "membnull":
+		return "gobj.k"
 	}
 	return "null"
 }
@@ -164,6 +166,8 @@ func (r *evalRenderer) stmt(s Node, p []int, depth int) string {
 	case "show":
 		n := nstr(s, "n")
 		return in + fmt.Sprintf("if (%s is unknown) {\n%s  print \"v %s unset\"\n%s} else {\n%s  print \"v %s\", %s\n%s}", n, in, n, in, in, n, n, in)
+	case "showg":
+		return in + "print \"g\", gobj"
 	case "break", "continue", "next", "exit":
 		return in + nstr(s, "k")
 	case "return":
@@ -338,7 +342,7 @@ func (r *evalRenderer) renderEvalProgram(prog Node, conds []bool) evalProgram {
 		sb.WriteString(f + "\n")
 	}
 	sb.WriteString(fns.String())
-	sb.WriteString("BEGIN {\n  orc = [" + strings.Join(orc, ", ") + "]\n  ci = 0\n  dat = " + forInDocLiteral() + "\n}\n")
+	sb.WriteString("BEGIN {\n  orc = [" + strings.Join(orc, ", ") + "]\n  ci = 0\n  gobj = {}\n  dat = " + forInDocLiteral() + "\n}\n")
 	sb.WriteString(rules.String())
 	n := nint(prog, "n")
 	elems := make([]string, n)
@@ -386,6 +390,8 @@ func expectedLines(out []any, forins map[string]Node) []expLine {
 		switch tag {
 		case "rule":
 			lines = append(lines, expLine{Text: fmt.Sprintf("rule %v %v %v", l[1], jnum(l[2]), jnum(l[3]))})
+		case "g":
+			lines = append(lines, expLine{Text: "g {}"})
 		case "s", "i", "p", "c":
 			lines = append(lines, expLine{Text: tag + " " + pathStr(anyPath(l[1]))})
 		case "v":
